@@ -70,6 +70,7 @@ def rexpr(e):
 def roperand(s, delim='"', name="prog"):
     mn, f = s["mn"], s["form"]
     if mn == "FCC":
+        delim = {"dq": '"', "slash": "/", "sq": "'", "bar": "|"}.get(s["expr"]["l"]["sp"], delim)
         return delim + "".join(chr(c) for c in s["chars"]) + delim
     if mn in ("FCB", "FDB"):
         return ",".join(rexpr(v) for v in s["vals"])
@@ -199,10 +200,13 @@ def assemble(lines, timeout=5, hooks=False):
             rec["obs"].append({"addr": addr, "bytes": b})
         for l in symlines:
             parts = l.split()
-            if len(parts) == 2 and parts[0].startswith("$"):
-                rec["symtab"].append({"s": parts[1], "v": int(parts[0][1:], 16)})
-            else:
-                rec["symtab"].append({"s": l, "v": -1})
+            try:
+                if len(parts) == 2 and parts[0].startswith("$"):
+                    rec["symtab"].append({"s": parts[1], "v": int(parts[0][1:], 16)})
+                else:
+                    rec["symtab"].append({"s": parts[-1] if parts else l, "v": -1})
+            except ValueError:
+                rec["symtab"].append({"s": parts[-1], "v": -1})
         oh = p.origin.hex()
         rec["origin"] = int(oh, 16) if oh else 0
         rec["name"] = p.name or ""
